@@ -32,14 +32,18 @@ def run(ctx):
     oneway_cases = [c for c in plain if c["hold"] == "none" and c["script"][0] in ("ok", "close", "hang", "s503")]
     t2, r2 = lc.run_sharded(ctx, "c03", bolt_cases, shards=8 if q else 12, extra_args=["-proto", "bolt"], tag="_bolt")
     t3, r3 = lc.run_sharded(ctx, "c03", oneway_cases, shards=4, extra_args=["-proto", "boltoneway"], tag="_oneway")
-    ctx.cov["protocols"] = {"http1": len(results), "bolt": len(r2), "bolt-oneway": len(r3)}
-    traces, results = traces + t2 + t3, results + r2 + r3
+    # and behind an HTTP/2 listener with an HTTP/2 upstream (every kind of case, step schedules included)
+    held = [c for c in cases if c["hold"] != "none" or c.get("steps")]
+    h2_cases = [c for c in cases if c["hold"] == "none" and not c.get("steps")] + (rng.sample(held, min(len(held), 260)) if q else held)
+    t4, r4 = lc.run_sharded(ctx, "c03", h2_cases, shards=8 if q else 14, extra_args=["-proto", "http2"], tag="_h2")
+    ctx.cov["protocols"] = {"http1": len(results), "bolt": len(r2), "bolt-oneway": len(r3), "http2": len(r4)}
+    traces, results = traces + t2 + t3 + t4, results + r2 + r3 + r4
     lc.validate(ctx, "C03", traces, results, kinds_for_property=None, sigfn=lc.lifecycle_sig)
     ctx.cov["exhaustive"] = not q
     ctx.cov["rule"] = ("one case = (cluster shape, per-arrival upstream script, per-try timeout on/off, gate point held, event forced "
                        "to happen meanwhile) from Scenarios.tla (%d feasible cases); each realised once on the in-process MOSN over "
                        "HTTP/1 with global timeout 120 ms / per-try 40 ms; quick replays the retry-window and no-hold cases plus a "
                        "VERIF_SEED sample of the rest" % len(cases))
-    ctx.assumptions += ["HTTP/1 (all cases) and bolt two-way / one-way (no-hold cases plus a sample of the held ones) downstream and upstream; one request at a time while a gate is held",
+    ctx.assumptions += ["HTTP/1 (all cases), HTTP/2 (quick: no-hold cases plus a sample of the held ones; thorough: all) and bolt two-way / one-way (no-hold cases plus a sample of the held ones) downstream and upstream; one request at a time while a gate is held",
                         "bounded time is observed as: reply within global timeout + 700 ms after the last gate was released",
                         "retry budget of the routes used = max(3, num_retries=2) = 3 (retrystate.go)"]
